@@ -58,7 +58,8 @@ int main(int argc,char**argv){
       while(x){ struct ent *e=(struct ent*)x; printf("N %d %lu %ld -> ",e->id,e->hash,e->key); cds_lfht_next_duplicate(ht,match,&key,&it); x=cds_lfht_iter_get_node(&it); pid(x); } }
     else if(op==12){ struct cds_lfht_node *x; printf("T ->"); cds_lfht_for_each(ht,&it,x) printf(" %d",idof(x)); printf("\n"); }
     else if(op==13){ long b,a; unsigned long c; cds_lfht_count_nodes(ht,&b,&c,&a); printf("C -> %lu\n",c); }
-    else if(op==14){ unsigned long n=SZ[(r>>16)%15]; printf("Z %lu -> ",n); cds_lfht_resize(ht,n); printf("0\n"); check_buckets(); }
+    else if(op==14){ unsigned long n=SZ[(r>>16)%15]; if(ht->max_nr_buckets>65536 && n>1024) n=1024;   /* an unbounded table really would grow to 2^63 buckets */
+      printf("Z %lu -> ",n); cds_lfht_resize(ht,n); printf("0\n"); check_buckets(); }
     else { if((r>>16)%6) continue; printf("X -> "); int any=0; for(int j=0;j<NE;j++) any|=E[j].in; int x=any? cds_lfht_destroy(ht,NULL) : 1; if(any) printf("%s\n", x?"err":"0"); else printf("skip\n"); }
   }
   { struct cds_lfht_node *x; printf("T ->"); cds_lfht_for_each(ht,&it,x) printf(" %d",idof(x)); printf("\n"); }
